@@ -299,7 +299,7 @@ func (g *c02Gen) service(name string, all []string, resources *c02Resources, can
 		}
 		g.shape("extra_hosts")
 	}
-	if g.coin(7) {
+	if g.coin(12) {
 		s.Set("network_mode", g.pick("none", "host"))
 		g.shape("network_mode")
 	} else if len(resources.Networks) > 0 && g.coin(2) {
@@ -723,6 +723,21 @@ func c02GenInput(r *rand.Rand, size int) *c02Input {
 				ov.Set("networks", m)
 			}
 		}
+		if len(res.Volumes) > 0 && g.coin(2) {
+			m := M()
+			for _, n := range res.Volumes {
+				if g.coin(2) {
+					m.Set(n, M("labels", g.labels("vol"), "driver_opts", M("o", "bind2", "extra", "1")))
+				}
+			}
+			if len(m.KV) > 0 {
+				ov.Set("volumes", m)
+				g.shape("override-volumes")
+			}
+		}
+		if len(res.Configs) > 0 && g.coin(3) {
+			ov.Set("configs", M(res.Configs[0], M("labels", M("c", "3", "a", "9"))))
+		}
 		if g.coin(4) {
 			// a tagged override
 			for _, kv := range osvcs.KV {
@@ -738,6 +753,37 @@ func c02GenInput(r *rand.Rand, size int) *c02Input {
 	}
 	if g.coin(4) {
 		in.Profiles = []string{g.pick("dev", "tools", "debug", "*")}
+	}
+	// malformed stream: one defect injected into an otherwise valid model — the outcome (an error) must be as
+	// stable as a success
+	if size > 0 && g.coin(7) {
+		first := svcs.KV[0].V.(*om)
+		last := svcs.KV[len(svcs.KV)-1].V.(*om)
+		switch g.r.Intn(9) {
+		case 0:
+			first.Set("unknown_attribute", 1)
+		case 1:
+			first.Set("ports", "80")
+		case 2:
+			last.Set("environment", 3)
+		case 3:
+			last.Set("healthcheck", M("interval", "soon"))
+		case 4:
+			last.Set("depends_on", []any{"nobody"})
+		case 5:
+			last.Set("extends", M("service", "nobody"))
+		case 6:
+			first.Set("env_file", []any{"e1.env", "absent.env"})
+		case 7:
+			first.Set("cap_add", []any{"X", "X"})
+		default:
+			main.Set("networks", "oops")
+		}
+		if g.coin(2) {
+			main.Set("version", "3.9")
+			g.shape("version")
+		}
+		g.shape("malformed")
 	}
 	for s := range g.shapes {
 		in.Shapes = append(in.Shapes, s)
@@ -963,6 +1009,25 @@ func errSite(msg string) string {
 	return "outcome:" + strings.Join(ws, "-")
 }
 
+var c02OpenMaps = map[string]bool{"labels": true, "environment": true, "annotations": true, "args": true, "driver_opts": true, "sysctls": true,
+	"extra_hosts": true, "options": true, "additional_contexts": true, "aux_addresses": true, "ssh": true, "depends_on": true, "networks": true, "ulimits": true}
+
+// stableSite cuts an attribute path after the first user-keyed mapping (labels, environment, …) and at depth 5,
+// so that the key of a finding does not contain names chosen by the generator.
+func stableSite(p string) string {
+	parts := strings.Split(p, ".")
+	for i, x := range parts {
+		if i >= 2 && c02OpenMaps[x] {
+			parts = parts[:i+1]
+			break
+		}
+	}
+	if len(parts) > 5 {
+		parts = parts[:5]
+	}
+	return strings.Join(parts, ".")
+}
+
 func c02Compare(a, b c02Obs, what string) map[string]any {
 	if a.Class != b.Class {
 		msg := a.Err + b.Err
@@ -979,13 +1044,13 @@ func c02Compare(a, b c02Obs, what string) map[string]any {
 		site := "json-bytes"
 		if json.Unmarshal([]byte(a.JSON), &x) == nil && json.Unmarshal([]byte(b.JSON), &y) == nil {
 			if p, d := firstDiff(x, y, nil); d {
-				site = p
+				site = stableSite(p)
 			}
 		}
 		return map[string]any{"diverge": what, "site": site, "detail": "JSON renderings differ"}
 	}
 	if a.YAML != b.YAML {
-		return map[string]any{"diverge": what, "site": yamlDiffPath(a.YAML, b.YAML), "detail": "YAML renderings differ"}
+		return map[string]any{"diverge": what, "site": stableSite(yamlDiffPath(a.YAML, b.YAML)), "detail": "YAML renderings differ"}
 	}
 	if !reflect.DeepEqual(a.P, b.P) {
 		return map[string]any{"diverge": what, "site": "project-deep-equal:" + structDiff(reflect.ValueOf(a.P), reflect.ValueOf(b.P), "", 0), "detail": "renderings agree but the projects are not deeply equal"}
